@@ -269,14 +269,7 @@ func generateAsyncWaitStatements(injector *Injector) []ast.Stmt {
 					Y:  ast.NewIdent("nil"),
 				},
 				Body: &ast.BlockStmt{
-					List: []ast.Stmt{
-						&ast.ReturnStmt{
-							Results: []ast.Expr{
-								ast.NewIdent("nil"),
-								errIdent,
-							},
-						},
-					},
+					List: waitErrorReturn(injector, errIdent),
 				},
 			},
 		}
@@ -296,6 +289,48 @@ func generateAsyncWaitStatements(injector *Injector) []ast.Stmt {
 			},
 		},
 	}
+}
+
+// waitErrorReturn builds the statements that return the error of eg.Wait(): `return nil, err` when nil
+// is a value of the requested type, otherwise the zero value of that type (`var zero T; return zero, err`).
+func waitErrorReturn(injector *Injector, errIdent *ast.Ident) []ast.Stmt {
+	if injector.Return == nil || injector.Return.Return == nil || injector.Return.Return.ASTTypeExpr == nil ||
+		injector.Return.Return.Type == nil || isNilable(injector.Return.Return.Type) {
+		return []ast.Stmt{
+			&ast.ReturnStmt{
+				Results: []ast.Expr{ast.NewIdent("nil"), errIdent},
+			},
+		}
+	}
+
+	return []ast.Stmt{
+		&ast.DeclStmt{
+			Decl: &ast.GenDecl{
+				Tok: token.VAR,
+				Specs: []ast.Spec{
+					&ast.ValueSpec{
+						Names: []*ast.Ident{ast.NewIdent("zero")},
+						Type:  injector.Return.Return.ASTTypeExpr,
+					},
+				},
+			},
+		},
+		&ast.ReturnStmt{
+			Results: []ast.Expr{ast.NewIdent("zero"), errIdent},
+		},
+	}
+}
+
+// isNilable reports whether nil is a value of type t.
+func isNilable(t types.Type) bool {
+	switch u := types.Unalias(t).Underlying().(type) {
+	case *types.Pointer, *types.Interface, *types.Slice, *types.Map, *types.Chan, *types.Signature:
+		return true
+	case *types.Basic:
+		return u.Kind() == types.UnsafePointer
+	}
+
+	return false
 }
 
 func generateImportDecl(imporSpecs []*ast.ImportSpec) *ast.GenDecl {
